@@ -512,7 +512,7 @@ def replay(cid, path):
     elif str(inp.get("zone", "")).split(":")[0] in ("tzical", "tzstr", "tzrange", "tzlocal"):
         # generated non-tzfile zone: rebuild the description, show implementation and expected values
         import tzfile_genzones as G
-        descs = G.posix_descs(("tzlocal", "tzstr", "tzrange", "tzical"))
+        descs = G.posix_descs(("tzlocal", "tzstr", "tzrange", "tzical")) + G.extra_descs()
         r = C.rng("genzones/" + cid)
         descs += [d for d in (G.multi_era_desc(r, k) for k in range(400)) if d is not None]
         cand = [d for d in descs if d.name == inp["zone"] and (not inp.get("vtimezone") or getattr(d, "text", None) == inp["vtimezone"])]
@@ -864,7 +864,10 @@ def main(cid):
                              for k in sorted(set(n_.split(":")[0] for n_ in zstats))),
             "note": "tzical from multi-era component lists (2-4 eras, std offsets negative/zero/positive incl. "
                     "sub-hour, DST at offset 0, shuffled component order), tzical/tzstr/tzrange/tzlocal from POSIX "
-                    "rules of both hemispheres incl. the Azores rule; one zone OBJECT per description, instants in "
+                    "rules of both hemispheres incl. the Azores rule; tzical with +-HHMMSS TZOFFSETFROM/TZOFFSETTO (non-zero "
+                    "seconds, both signs; DST rules and rule-less multi-era); day-of-year rules in both POSIX forms "
+                    "(Jn and zero-based n, n >= 59 included) as tzstr/tzlocal/tzrange/tzical, instants in 2 leap + 2 "
+                    "common years; one zone OBJECT per description, instants in "
                     "shuffled order + a second pass; expected values from an independent piecewise-constant offset "
                     "function evaluated by the extracted SPEC; positive saving only (negative saving: F-C08-3/4, F-C17-1)"}
         shown = 0
